@@ -80,6 +80,11 @@ impl Out {
         writeln!(self.w, "{} => {}", input, result).unwrap();
     }
 }
+/// projective → affine; `None` when the conversion panics (twisted Edwards curves with an incomplete
+/// addition law reach `Z = 0`)
+fn aff<A: AffineRepr>(g: A::Group) -> Option<A> {
+    std::panic::catch_unwind(std::panic::AssertUnwindSafe(|| g.into())).ok()
+}
 fn guarded<F: FnOnce() -> String>(f: F) -> String {
     match std::panic::catch_unwind(std::panic::AssertUnwindSafe(f)) {
         Ok(s) => s,
@@ -350,7 +355,10 @@ where
     if h > BigUint::from(1u32) {
         let nq = (n / 2).max(2).min(whole.len());
         for (i, p) in whole.iter().take(nq).enumerate() {
-            let q: C::A = p.mul_bigint(&rl).into();
+            let q: C::A = match aff::<C::A>(p.mul_bigint(&rl)) {
+                Some(q) => q,
+                None => continue,
+            };
             small.push(q);
             if i >= 2 && !ctx.thorough {
                 continue;
@@ -366,12 +374,18 @@ where
                     hh /= &lb;
                     v += 1;
                 }
-                let mut t: C::A = q.mul_bigint(limbs_of(&hh)).into();
+                let mut t: C::A = match aff::<C::A>(q.mul_bigint(limbs_of(&hh))) {
+                    Some(t) => t,
+                    None => continue,
+                };
                 if t.is_zero() {
                     continue;
                 }
                 for _ in 0..v {
-                    let t2: C::A = t.mul_bigint([l as u64]).into();
+                    let t2: C::A = match aff::<C::A>(t.mul_bigint([l as u64])) {
+                        Some(t2) => t2,
+                        None => break,
+                    };
                     if t2.is_zero() {
                         break;
                     }
@@ -383,8 +397,9 @@ where
                 }
                 small.push(t);
                 // subgroup point + small-order point
-                let g: C::A = (C::A::generator() + t).into();
-                small.push(g);
+                if let Some(g) = aff::<C::A>(C::A::generator() + t) {
+                    small.push(g);
+                }
             }
         }
     }
